@@ -158,7 +158,9 @@ class ConfigureV1(Spec):
         return out
 
     def compare_roots(self, a, b, result):
-        return []
+        # frame: the parsed version-1 dictionary is only READ (a YAML file may share one mapping between several keys
+        # through an anchor/alias: popping or changing entries in place would leak from one variable to the next)
+        return [("C18: the version-1 input dictionary is not modified (it may contain mappings shared through YAML aliases)", a.config, self.build())]
 
 
 def v1_units():
